@@ -38,6 +38,7 @@ Failing ==
     (IF AtMostOneOutcomePerRequest' THEN {} ELSE {"ReplyMatches"}) \cup
     (IF A_ReplyMatches THEN {} ELSE {"ReplyMatches"}) \cup
     (IF A_LateAndForeignIgnored THEN {} ELSE {"LateAndForeignIgnored"}) \cup
+    (IF A_DirectionRespected THEN {} ELSE {"DirectionRespected"}) \cup
     (IF A_NoDoubleIndication THEN {} ELSE {"NoDoubleIndication"}) \cup
     (IF A_SameIdDifferentPeersIndependent THEN {} ELSE {"SameIdDifferentPeersIndependent"}) \cup
     (IF A_NewRequestIndicated THEN {} ELSE {"SameIdDifferentPeersIndependent"}) \cup
